@@ -1,12 +1,16 @@
-"""C06 — simulation-based check (real executor code on the simulated kernel) + monitors."""
+"""C06 — Coq theorems over coq/Model/Pool.v (lists regenerated from the source) + simulation of the real executor code with monitors."""
 from checks import simcommon as S
 
 FAMILIES = ['killshutdown']
 PER_FAMILY = (600, 12000)
 
 
+PROOF = S.pool_proof('C06', ['C06_forced_flag_always_set', 'C06_forced_shutdown_is_prompt', 'C06_nothing_accepted_after_the_call', 'C06_structure'],
+                    'the killing of descendants (kill_process_tree) is checked by shape facts and by the simulation, not modelled; H10 (a worker killed inside its idle-exit path keeps the management lock) is outside the model')
+
+
 def run(ctx):
-    return S.sim_check(ctx, FAMILIES, FAMILIES, PER_FAMILY, S.SIM_ASSUME)
+    return S.sim_check(ctx, FAMILIES, FAMILIES, PER_FAMILY, S.SIM_ASSUME, proof=PROOF)
 
 
 def replay(ctx, path):
